@@ -2,6 +2,7 @@ package main
 
 import (
 	"fmt"
+	"math"
 	"math/rand"
 	"strconv"
 	"time"
@@ -97,6 +98,15 @@ func c09(c *Sexp) *Sexp {
 		}
 	}
 	cutoff := c.Float("cutoff")
+	// non-finite thresholds are given as symbols
+	switch c.Str("cutoff") {
+	case "nan":
+		cutoff = math.NaN()
+	case "inf":
+		cutoff = math.Inf(1)
+	case "-inf":
+		cutoff = math.Inf(-1)
+	}
 	done := make(chan *Sexp, 1)
 	go func() {
 		defer func() {
